@@ -313,7 +313,51 @@ func collectProv(p *Program, pkgs []string) map[string]map[string][]provSite {
 			withAnon(tf, func(g *ssa.Function) {
 				fk := FuncName(g)
 				provSigs[fk] = callSignature(g)
+				add := func(id, tuple string, pos token.Pos) {
+					if out[fk] == nil {
+						out[fk] = map[string][]provSite{}
+					}
+					out[fk][id] = append(out[fk][id], provSite{tuple, pos})
+				}
 				allInstrs(g, func(ins ssa.Instruction) {
+					switch x := ins.(type) {
+					case *ssa.If:
+						cond := x.Cond
+						for {
+							if u, ok := cond.(*ssa.UnOp); ok && u.Op == token.NOT {
+								cond = u.X
+								continue
+							}
+							break
+						}
+						if bo, ok := cond.(*ssa.BinOp); ok {
+							a, b := provOf(g, ins, bo.X), provOf(g, ins, bo.Y)
+							if b < a {
+								a, b = b, a
+							}
+							pos := bo.Pos()
+							if !pos.IsValid() {
+								pos = g.Pos()
+							}
+							add("CMP", a+" ~ "+b, pos)
+						}
+						return
+					case *ssa.Return:
+						var parts []string
+						for _, r := range x.Results {
+							parts = append(parts, provOf(g, ins, r))
+						}
+						if len(parts) > 0 {
+							add("RET", strings.Join(parts, " ; "), x.Pos())
+						}
+						return
+					case *ssa.Store:
+						if fa, ok := x.Addr.(*ssa.FieldAddr); ok {
+							st := fa.X.Type().Underlying().(*types.Pointer).Elem().Underlying().(*types.Struct)
+							add(fmt.Sprintf("ST:f%d:%s", fa.Field, typeKey(st.Field(fa.Field).Type())), provOf(g, ins, x.Val), x.Pos())
+						}
+						return
+					}
 					cl, ok := ins.(*ssa.Call)
 					if !ok {
 						return
@@ -336,10 +380,7 @@ func collectProv(p *Program, pkgs []string) map[string]map[string][]provSite {
 					for _, a := range cc.Args {
 						parts = append(parts, provOf(g, cl, a))
 					}
-					if out[fk] == nil {
-						out[fk] = map[string][]provSite{}
-					}
-					out[fk][id] = append(out[fk][id], provSite{strings.Join(parts, " ; "), cl.Pos()})
+					add(id, strings.Join(parts, " ; "), cl.Pos())
 				})
 			})
 		}
@@ -460,7 +501,16 @@ func runProvDrift(c *Ctx, pkgs []string) {
 				}
 			}
 			sort.Strings(was)
-			c.Fail(fk, "same-inputs "+short, c.Pos(bad.pos), fmt.Sprintf("a call of %s receives inputs it never receives on the reference tree (the function still has the same number of such calls): now built from {%s}; on the reference tree {%s} – a different variable, field or result is passed", short, bad.tuple, strings.Join(was, " | ")))
+			what := "a call of " + short + " receives inputs it never receives"
+			switch {
+			case id == "CMP":
+				what = "a branch condition compares values it never compares"
+			case id == "RET":
+				what = "a return hands back values it never returns"
+			case strings.HasPrefix(id, "ST:"):
+				what = "a field (" + short + ") is assigned a value it is never assigned"
+			}
+			c.Fail(fk, "same-inputs "+short, c.Pos(bad.pos), fmt.Sprintf("%s on the reference tree (the function has the same number of such sites and the same calls): now built from {%s}; on the reference tree {%s} – a different variable, field or result is used", what, bad.tuple, strings.Join(was, " | ")))
 		}
 	}
 }
